@@ -35,14 +35,37 @@ def check_history(run, probe, history, probes, oob):
     worldA = c15.World()
     envA, envB = worldA.env, Environment()
     used = set()
+    produced = []
     for call in history:
         if call[0] == "!fail":
             # a call that raises is part of what the environment was used for before
             if c15.do_fail(worldA, call[1]):
                 run.cls("history-with-failing-call")
             continue
-        run_call(envA, call)
+        out = run_call(envA, call)
         used.add(call[0])
+        if out[0] == "ok" and call[0] in ("simplify", "substitute", "nnf", "prenex", "aig", "propagate_toplevel") and len(produced) < 3:
+            try:
+                with envA:
+                    pb_ = pys.decode(out[1])
+                from vf.refsem import all_symbols
+                if all_symbols(pb_) <= all_symbols(call[1]):        # no fresh symbols: a fresh environment names them anew
+                    produced.append((call[0], pb_))
+            except Exception:
+                pass
+    # formulas that the history *produced* are probed too (a fresh environment builds them directly)
+    if produced:
+        import random
+        g2 = G(cfg=CFG, rnd=random.Random(len(history) * 7919 + len(probes)))
+        probes = list(probes)
+        for (svc, pb) in produced:
+            try:
+                bool_ok = reftype(pb) == BOOL
+            except IllTyped:
+                continue
+            for n in ("simplify", svc if (bool_ok or svc not in BOOL_ONLY) else "simplify", "free_vars", "size"):
+                probes.append(random_call(g2, pb, forced=n))
+            run.cls("probe-on-a-produced-formula")
     case = {"probe": probe, "history": history, "probes": probes}
     nontriv = any(p[0] in used for p in probes)
     run.case(key=(probe, [(c[0], c[2] if len(c) > 2 else None) for c in history]), nontrivial=nontriv,
